@@ -67,12 +67,21 @@ def lib_verdicts(spec, name, sig, kl_prefix):
         call('verify_rsa', lambda: verify_rsa(RSA.import_key(pub), sig))
         call('RsaChecker', lambda: run_sync(RsaChecker.from_key(kl_prefix, pub)(name, sig)))
         call('union(RsaChecker,digest)', lambda: run_sync(union_checker(RsaChecker.from_key(kl_prefix, pub), sha256_digest_checker)(name, sig)))
+        from ..sim.appsim import shape_callable
+        call('union(wrapped(RsaChecker))', lambda: run_sync(union_checker(shape_callable(RsaChecker.from_key(kl_prefix, pub), 'wrapped'))(name, sig)))
     elif k == 'ecdsa':
         pub = K.KEYS[spec['key']]['pub']
         call('verify_ecdsa', lambda: verify_ecdsa(ECC.import_key(pub), sig))
         call('EccChecker', lambda: run_sync(EccChecker.from_key(kl_prefix, pub)(name, sig)))
         # the documented way to combine checkers: every member has to pass (the digest checker passes what is not digest-signed)
         call('union(digest,EccChecker)', lambda: run_sync(union_checker(sha256_digest_checker, EccChecker.from_key(kl_prefix, pub))(name, sig)))
+        # members in other legal forms of "a callable returning an awaitable" (a policy object with a plain __call__ - the form of
+        # the library's own CascadeChecker -, a forwarding lambda)
+        from ..sim.appsim import shape_callable
+        call('union(object(EccChecker),digest)', lambda: run_sync(union_checker(shape_callable(EccChecker.from_key(kl_prefix, pub), 'object'),
+                                                                                  sha256_digest_checker)(name, sig)))
+        call('union(digest,lambda(EccChecker))', lambda: run_sync(union_checker(sha256_digest_checker,
+                                                                                  shape_callable(EccChecker.from_key(kl_prefix, pub), 'lambda'))(name, sig)))
     elif k == 'ed25519':
         pub = K.KEYS[spec['key']]['pub']
         call('verify_ed25519', lambda: verify_ed25519(ECC.import_key(pub), sig))
